@@ -102,11 +102,17 @@ theorem C22_min_max_bound (s : SI) (x : Nat) (hs : s.WF) (hx : s.mem x) :
     (∀ m, s.min false = .ok (some m) → m ≤ x) ∧ (∀ m, s.max false = .ok (some m) → (x : Int) ≤ m) :=
   ⟨fun m h => min_le s m x hs hx h, fun m h => le_max s m x hs hx h⟩
 
-/-- the unsigned minimum is attained (it is a member), hence exact; `max` is exact only for aligned intervals
-(`max_unaligned_wrong` below) -/
+/-- the unsigned minimum is attained (it is a member), hence exact; `max` is exact for aligned intervals only
+(`C22_max_exact_aligned`, `max_unaligned_wrong`) -/
 theorem C22_min_exact (s : SI) (m : Int) (hs : s.WF) (hnb : s.bottom = false) (h : s.min false = .ok (some m)) :
     (∃ x, s.mem x ∧ (x : Int) = m) ∧ ∀ y, s.mem y → m ≤ y :=
   ⟨min_attained s m hs hnb h, fun y hy => min_le s m y hs hy h⟩
+
+/-- the unsigned maximum of an ALIGNED interval (its upper bound is a member) is attained, hence exact -/
+theorem C22_max_exact_aligned (s : SI) (m : Int) (hs : s.WF) (hnb : s.bottom = false) (hal : s.Aligned)
+    (h : s.max false = .ok (some m)) :
+    (∃ x, s.mem x ∧ (x : Int) = m) ∧ ∀ y, s.mem y → (y : Int) ≤ m :=
+  ⟨max_attained s m hs hnb hal h, fun y hy => le_max s m y hs hy h⟩
 
 /-- signed `min` / `max` bound the signed value of every member (interval in constructor-normal form) -/
 theorem C22_signed_min_max_bound (s : SI) (x : Nat) (hs : s.WF) (hn : s.renorm = s) (hx : s.mem x) :
